@@ -197,3 +197,25 @@ Proof.
       { rewrite <- Hj. apply nth_error_nth_eq; [exact Hl|]. intros d. apply Hn. intros ->. apply Hne. reflexivity. }
       exact (Hr j x Hj1).
 Qed.
+
+(* ---- key events (display callback): the joypad latch and STOP mode only ---- *)
+Lemma key_keeps_cpu : forall cs k a,
+  let c := fst cs in let c' := fst (sys_key cs k a) in
+  halted c' = halted c /\ haltbug c' = haltbug c /\ eip c' = eip c /\ pc c' = pc c /\ sp c' = sp c /\
+  ra c' = ra c /\ rf c' = rf c /\ cur c' = cur c /\ cyc c' = cyc c /\
+  (stopped c' = false \/ stopped c' = stopped c).
+Proof.
+  intros [c s] k a. unfold sys_key. cbn [fst snd].
+  destruct ((a =? 0) || (a =? 1)); [|repeat split; right; reflexivity].
+  destruct (key_button k); cbn [fst]; [destruct c; cbn; repeat split; left; reflexivity | repeat split; right; reflexivity].
+Qed.
+
+Lemma key_keeps_hw : forall cs k a,
+  let s := snd cs in let s' := snd (sys_key cs k a) in
+  s_ints s' = s_ints s /\ s_timer s' = s_timer s /\ s_ppu s' = s_ppu s /\ s_oam s' = s_oam s /\ s_apu s' = s_apu s /\
+  s_cart s' = s_cart s /\ s_wram s' = s_wram s /\ s_hram s' = s_hram s /\ s_serial s' = s_serial s.
+Proof.
+  intros [c s] k a. unfold sys_key, sys_button. cbn [fst snd].
+  destruct ((a =? 0) || (a =? 1)); [|repeat split].
+  destruct (key_button k); cbn [snd]; [destruct s; cbn; repeat split | repeat split].
+Qed.
